@@ -128,6 +128,7 @@ def cases(rng, tier):
 SPEC = {
     'lean': ['C11'],
     'cases': cases,
+    'big': True,
     'stream': 'C11 arithmetic stream',
     'rule': 'integer tuples (1–6 operands, magnitudes to 2^200, all sign mixes): sums and products against exact host '
             'integers; distributivity / commutativity as program pairs; truncated quotient, remainder and q·d + r = n '
